@@ -191,6 +191,11 @@ def tsan_payload_reports(stderr):
     return n_payload, n_total
 
 
+CANCEL = threading.Event()  # set once some run has produced a definite violation: the verdict is decided
+LIVE = {}
+LIVE_LOCK = threading.Lock()
+
+
 def execute(run, binpath, tmp, idx):
     out = os.path.join(tmp, "res_%d_%d.json" % (idx, run.attempts))
     errf = os.path.join(tmp, "err_%d_%d.txt" % (idx, run.attempts))
@@ -202,7 +207,14 @@ def execute(run, binpath, tmp, idx):
     t0 = time.time()
     timed_out = False
     with open(errf, "wb") as ef:
+        if CANCEL.is_set():
+            run.outcome = "cancelled"
+            run.wall = 0
+            run.rc = None
+            return
         p = subprocess.Popen(argv, stdout=ef, stderr=ef, env=env, cwd=tmp, start_new_session=True)
+        with LIVE_LOCK:
+            LIVE[p.pid] = p
         try:
             rc = p.wait(timeout=run.timeout)
         except subprocess.TimeoutExpired:
@@ -212,8 +224,13 @@ def execute(run, binpath, tmp, idx):
             except ProcessLookupError:
                 pass
             rc = p.wait()
+    with LIVE_LOCK:
+        LIVE.pop(p.pid, None)
     run.wall = time.time() - t0
     run.rc = rc
+    if CANCEL.is_set() and rc in (-9, -signal.SIGKILL):
+        run.outcome = "cancelled"
+        return
     with open(errf, "rb") as ef:
         data = ef.read()
     stderr = data[-200000:].decode("utf-8", "replace")
@@ -294,9 +311,18 @@ def run_all(runs, builder, tmp, max_cpu=20, log=None):
             state["cpu"] += need
         try:
             execute(r, bins[(r.variant, r.binary[0])], tmp, i)
-            if r.outcome == "inconclusive":
+            if r.outcome == "inconclusive" and not CANCEL.is_set():
                 # re-run once before calling it inconclusive
                 execute(r, bins[(r.variant, r.binary[0])], tmp, i)
+            if r.outcome in ("violation", "sanitizer", "crash") and os.environ.get("VP_NO_EARLY_STOP") != "1":
+                # the verdict is decided: stop the remaining runs (they could only add more witnesses)
+                CANCEL.set()
+                with LIVE_LOCK:
+                    for pid in list(LIVE):
+                        try:
+                            os.killpg(pid, signal.SIGKILL)
+                        except ProcessLookupError:
+                            pass
         finally:
             with cond:
                 state["cpu"] -= need
